@@ -15,5 +15,4 @@ func tryReplay(o *options, res *checkResult, ob *Obligation, model map[string]st
 	return nil
 }
 
-func cmdSelftest(args []string) int { return 2 }
-func cmdReplay(args []string) int   { return 2 }
+func cmdReplay(args []string) int { return 2 }
